@@ -64,6 +64,11 @@ F64_POOL = sorted({f64b(v) for v in _F_VALUES}) + [
     0x7FEFFFFFFFFFFFFF, 0xFFEFFFFFFFFFFFFF, 0x41DFFFFFFFC00000, 0x41E0000000000000, 0xC1E0000000000000, 0xC1E0000000200000,
     0x41EFFFFFFFE00000, 0x41F0000000000000, 0x43DFFFFFFFFFFFFF, 0x43E0000000000000, 0xC3E0000000000000, 0xC3E0000000000001,
     0x43EFFFFFFFFFFFFF, 0x43F0000000000000, 0xBFEFFFFFFFFFFFFF, 0xBFF0000000000000, 0x36A0000000000000, 0x47EFFFFFF0000000,
+    # f32.demote_f64 rounding edges: around FLT_MAX (0x47EFFFFFE0000000) and the tie to infinity (0x47EFFFFFF0000000), around the
+    # smallest subnormal (2^-149, tie to zero at 2^-150), the smallest normal (2^-126), and ties-to-even at 1 + k * 2^-24
+    0x47EFFFFFDFFFFFFF, 0x47EFFFFFE0000000, 0x47EFFFFFE0000001, 0x47EFFFFFEFFFFFFF, 0x47EFFFFFF0000001, 0xC7EFFFFFEFFFFFFF, 0xC7EFFFFFF0000000,
+    0x3690000000000000, 0x3690000000000001, 0x368FFFFFFFFFFFFF, 0x36A8000000000000, 0x380FFFFFFFFFFFFF, 0x3810000000000000, 0x380FFFFFF0000000,
+    0x3FF0000010000000, 0x3FF0000010000001, 0x3FF0000030000000, 0x3FF000002FFFFFFF,
 ]  # fmt: skip
 F32_NAN = [0x7FC00000, 0xFFC00000, 0x7FC00001, 0x7FFFFFFF]
 F32_SNAN = [0x7F800001, 0xFFA00000]
